@@ -21,7 +21,7 @@ import z3
 
 from mdvc import core, polyid
 from mdvc.cinterp import Ptr, Region
-from mdvc.core import SReal, rterm, term
+from mdvc.core import SReal, rterm, term, SInt
 from mdvc.verify import contract
 
 from . import c03
@@ -332,6 +332,7 @@ def quartic(ctx, case):
     nr_cubic = case
     ex = ctx.ex
     c = ctx.load_c(FILE, ["quartic_equation_solve_exact"], **INC)
+    c.merge_pure = False  # the identities below are polynomial: every ?: of the solver is explored as its own path
     d0, d1, d2 = ctx.real("d0"), ctx.real("d1"), ctx.real("d2")
     seen = {}
     X = [ctx.real(f"x{k}") for k in (1, 2, 3)]
@@ -473,3 +474,103 @@ def direct_solve(ctx, case=None):
 
 
 contract("C06", FILE, "DirectSolve", lang="c", replay="rmsd", covers=["returned"], max_paths=50)(direct_solve)
+
+
+# =====================================================================================================
+# msd_atom_major for EVERY atom count: loop invariant over the partial sums (spec functions defined by their recurrence)
+PSN = z3.Function("PSN", z3.IntSort(), z3.IntSort(), z3.IntSort(), z3.IntSort(), z3.RealSort())  # (i, j, lane, blocks done) -> partial sum
+
+
+def msd_atom_major_all_n(ctx, case):
+    """n = 4q + r atoms, q symbolic, r in {0,1,2,3}: the block loop is cut at the invariant
+           lane l of accumulator (i,j) after K blocks  =  PSN(i,j,l,K),    PSN(.,0) = 0,  PSN(i,j,l,K+1) = PSN(i,j,l,K) + a[3(4K+l)+i] * b[3(4K+l)+j]
+       (full blocks, loaded by the deinterleaving loads), pointers a0+12K / b0+12K; the LAST block is loaded through the tail masks: lane l gets
+       atom 4(niters-1)+(3-l) if that atom exists, else 0.  After the horizontal-add epilogue
+           M[3i+j] = sum_l PSN(i,j,l,niters-1) + sum_l TAIL(i,j,l)  =  sum over all atoms below n of a[atom][i]*b[atom][j]   (the sum defined by this recurrence),
+       every read stays below 3n, and G_a, G_b, n, the rotation request reach msdFromMandG."""
+    from mdvc.cinterp import CLoopSpec, FV
+
+    r = case
+    ex = ctx.ex
+    c = ctx.load_c(FILE, ["msd_atom_major", "aos_deinterleaved_loadu"], **INC)
+    A, B, rot = Region("a"), Region("b"), Region("rot")
+    A.mem0, B.mem0 = A.mem, B.mem
+    Ga, Gb = ctx.real("G_a"), ctx.real("G_b")
+    q = ctx.int("q")
+    ctx.assume(q >= 0, 4 * q.t + r >= 1)
+    n = SInt(4 * q.t + r)
+    NIT = q.t + (1 if r else 0)  # number of blocks
+    calls = []
+
+    def msd_model(interp, args):
+        Mp = args[0]
+        calls.append(dict(M=[Mp.region.read(Mp.off + k) for k in range(9)], Ga=args[1], Gb=args[2], n=args[3], rot=args[4], rotp=args[5]))
+        return SReal(z3.Real("msd_result"))
+    c.call_models["msdFromMandG"] = msd_model
+    ACC = {"xx": (0, 0), "xy": (0, 1), "xz": (0, 2), "yx": (1, 0), "yy": (1, 1), "yz": (1, 2), "zx": (2, 0), "zy": (2, 1), "zz": (2, 2)}
+    K = ctx.int("K")
+    a_at = lambda atom, i: z3.Select(A.mem0, 3 * atom + i)
+    b_at = lambda atom, j: z3.Select(B.mem0, 3 * atom + j)
+
+    def tail(i, j, lane):
+        atom_in_block = 3 - lane  # _mm_set_ps puts its first argument into the highest lane
+        exists = (r == 0) or (atom_in_block < r)
+        atom = 4 * (NIT - 1) + atom_in_block
+        return a_at(atom, i) * b_at(atom, j) if exists else z3.RealVal(0)
+
+    def lane_spec(i, j, lane, k):
+        return z3.If(k < NIT, PSN(i, j, lane, k), PSN(i, j, lane, NIT - 1) + tail(i, j, lane))
+
+    def havoc(interp, env, g):
+        interp.setvar(env, "k", K)
+        interp.setvar(env, "a", Ptr(A, SInt(12 * K.t)))
+        interp.setvar(env, "b", Ptr(B, SInt(12 * K.t)))
+        for name, (i, j) in ACC.items():
+            interp.setvar(env, name, FV([SReal(lane_spec(i, j, lane, K.t)) for lane in range(4)]))
+        A.reads.clear()
+        B.reads.clear()
+        # recurrence of the spec function at the arbitrary block (its definition, instantiated), and its base case
+        out = [K.t >= 0]
+        for (i, j) in ACC.values():
+            for lane in range(4):
+                out.append(PSN(i, j, lane, 0) == 0)
+                out.append(PSN(i, j, lane, K.t + 1) == PSN(i, j, lane, K.t) + a_at(4 * K.t + lane, i) * b_at(4 * K.t + lane, j))
+        return out
+
+    def inv(interp, env, g):
+        k = term(interp.getvar(env, "k"))
+        nit = term(interp.getvar(env, "niters"))
+        pa, pb = interp.getvar(env, "a"), interp.getvar(env, "b")
+        out = [("niters=number-of-blocks(ceil(n/4))", nit == NIT), ("0<=k<=niters", z3.And(k >= 0, k <= NIT)),
+               ("a=a0+12k", z3.And(z3.BoolVal(isinstance(pa, Ptr) and pa.region is A), term(pa.off) == 12 * k) if isinstance(pa, Ptr) else z3.BoolVal(False)),
+               ("b=b0+12k", z3.And(z3.BoolVal(isinstance(pb, Ptr) and pb.region is B), term(pb.off) == 12 * k) if isinstance(pb, Ptr) else z3.BoolVal(False))]
+        if g.get("entry"):
+            ex.assume(z3.And(*[PSN(i, j, lane, 0) == 0 for (i, j) in ACC.values() for lane in range(4)]))
+        for name, (i, j) in ACC.items():
+            fv = interp.getvar(env, name)
+            out.append((f"accumulator-{name}:lane-l=partial-sum-over-the-blocks-done(last-block-through-the-tail-masks)",
+                        z3.And(*[rterm(fv.v[lane]) == lane_spec(i, j, lane, k) for lane in range(4)])))
+        return out
+
+    def at_end(interp, env, g):
+        for reg, nm in ((A, "a"), (B, "b")):
+            for t in reg.reads:
+                ex.require(f"block:every-read-of-{nm}-stays-below-3n", z3.And(t >= 0, t < 3 * n.t))
+    c.loop_specs[("msd_atom_major", 0)] = CLoopSpec(havoc, inv, at_end=at_end)
+    out = ctx.ccall("msd_atom_major", n, SInt(4 * NIT), Ptr(A, 0), Ptr(B, 0), Ga, Gb, 1, Ptr(rot, 0))
+    ctx.ensure("returns-normally", out.exc is None)
+    if out.exc is not None:
+        return
+    ctx.cover("returned")
+    ctx.ensure("msdFromMandG-called-once-and-its-result-returned", len(calls) == 1 and rterm(out.value) == z3.Real("msd_result"))
+    if len(calls) != 1:
+        return
+    k = calls[0]
+    ctx.ensure("G_a,G_b,atom-count,rotation-request-passed-through", z3.And(rterm(k["Ga"]) == rterm(Ga), rterm(k["Gb"]) == rterm(Gb), core.term(k["n"]) == n.t,
+                                                                            z3.BoolVal(bool(k["rot"]) and k["rotp"].region is rot)))
+    for (i, j) in ACC.values():
+        want = sum(PSN(i, j, lane, NIT - 1) + tail(i, j, lane) for lane in range(4))
+        ctx.ensure(f"M[{3 * i + j}]=sum-over-all-atoms-of-a[atom][{i}]*b[atom][{j}](partial-sum-recurrence-at-niters-1,plus-the-masked-last-block)", rterm(k["M"][3 * i + j]) == want)
+
+
+contract("C06", FILE, "msd_atom_major(every-atom-count)", cases=[0, 1, 2, 3], lang="c", replay="rmsd", covers=["returned"], max_paths=100)(msd_atom_major_all_n)
